@@ -605,7 +605,7 @@ func (fv *FV) elemPtr(a, i Term) Term {
 	if et == nil {
 		fv.sfail("pointer to an element of a non-slice")
 	}
-	return Term{S: fmt.Sprintf("(mk-eptr (sbase %s) (+ (soff %s) %s))", a.S, a.S, i.S), Sort: "ElemPtr", T: types.NewPointer(et), Room: app("-", "(slen "+a.S+")", i.S)}
+	return Term{S: fmt.Sprintf("(mk-eptr (sbase %s) %s)", a.S, elemAddr(a.S, i.S)), Sort: "ElemPtr", T: types.NewPointer(et), Room: app("-", "(slen "+a.S+")", i.S)}
 }
 
 func (fv *FV) fieldPtr(st *State, base Term, name string, t types.Type) Term {
